@@ -735,7 +735,8 @@ class C03(Check):
     title = "Edit histories: answers depend only on the model's current content"
     rules = {
         "I1": "invalidate-on-write: at every normal exit of every public Model method that writes a field the "
-              "cache builder reads, the cache is None or was rebuilt after the last write",
+              "cache builder reads, the cache is None or was rebuilt after the last write; snapshot clause: no method that writes content stores a value "
+              "it read from the cache field earlier back into the cache field (unconditionally, or under a flag a loop overwrites per item)",
         "I2": "atomic rejection: on no path of a public mutator may a rejection point that can still fire "
               "(under the membership facts and the class invariant keys(content) <= keys(_ids)) follow a write",
         "I2b": "bulk atomicity: a loop whose body writes must not be able to reject in a later iteration",
@@ -832,6 +833,82 @@ class C03(Check):
                 self.violated("I6", MOD, q, "every-item-applied", loop, f"on {iterated - applied} of {iterated} paths of an iteration no self.{single}(..) is called for the item: that item's edit is dropped",
                               witness=f"m.{name}({{'a': <plain value>}}) leaves a unchanged")
 
+    def i1_restore(self, m) -> None:
+        """I1 snapshot clause: the memoised cache is only ever reset or rebuilt.  A method that writes model content and then stores a
+        value it read from `self._cache` EARLIER back into `self._cache` resurrects answers computed from the old content.  The only
+        sound form is a restore on paths where nothing changed; that needs value reasoning (refused, exit 2), except for two shapes that
+        are decided: a restore under no condition, and a restore guarded by a flag that a loop overwrites per iteration instead of
+        accumulating (only the last item then decides, the earlier items' writes are forgotten)."""
+        scanned = 0
+        for name, fn in m.methods.items():
+            if name == "_create_cache":
+                continue
+            scanned += 1
+            snaps: set[str] = set()
+            for n in walk_no_nested(fn):
+                val, tgts = None, []
+                if isinstance(n, ast.Assign):
+                    val, tgts = n.value, n.targets
+                elif isinstance(n, ast.AnnAssign) and n.value is not None:
+                    val, tgts = n.value, [n.target]
+                elif isinstance(n, ast.NamedExpr):
+                    val, tgts = n.value, [n.target]
+                if val is None:
+                    continue
+                reads = any(is_self_attr(x, m.cache_field) and isinstance(x.ctx, ast.Load) for x in ast.walk(val)) or any(
+                    isinstance(x, ast.Name) and x.id in snaps for x in ast.walk(val))
+                if reads:
+                    snaps |= {t.id for t in tgts if isinstance(t, ast.Name)}
+            parents: dict[int, ast.AST] = {}
+            for n in walk_no_nested(fn):
+                for c in ast.iter_child_nodes(n):
+                    parents[id(c)] = n
+            for n in walk_no_nested(fn):
+                if not (isinstance(n, ast.Assign) and any(is_self_attr(t, m.cache_field) for t in n.targets)):
+                    continue
+                stale = [x for x in ast.walk(n.value) if (isinstance(x, ast.Name) and x.id in snaps) or is_self_attr(x, m.cache_field)]
+                if not stale:
+                    continue
+                q = f"{CLS}.{name}"
+                if name not in m.writes:
+                    self.holds("I1", MOD, q, "cache-snapshot-restored", n, "the method writes no content field: the snapshot is still current")
+                    continue
+                flags: set[str] = set()
+                cur = n
+                while id(cur) in parents:
+                    par = parents[id(cur)]
+                    if isinstance(par, (ast.If, ast.While)) and cur is not par.test:
+                        flags |= {x.id for x in ast.walk(par.test) if isinstance(x, ast.Name)}
+                    cur = par
+                if not flags:
+                    self.violated("I1", MOD, q, "cache-snapshot-restored", n,
+                                  "a cache snapshot taken before the method's writes is stored back unconditionally: later queries answer "
+                                  "from the content as it was before the edit",
+                                  witness=f"query; m.{name}(...); query  -- second answer is the first one")
+                    continue
+                bad = None
+                for loop in (x for x in walk_no_nested(fn) if isinstance(x, (ast.For, ast.While))):
+                    for x in ast.walk(loop):
+                        if isinstance(x, ast.Assign) and any(isinstance(t, ast.Name) and t.id in flags for t in x.targets):
+                            fl = next(t.id for t in x.targets if isinstance(t, ast.Name) and t.id in flags)
+                            v = x.value
+                            mono = (isinstance(v, ast.Constant) and v.value is True) or (
+                                isinstance(v, ast.BoolOp) and isinstance(v.op, ast.Or) and any(isinstance(o, ast.Name) and o.id == fl for o in v.values)) or (
+                                isinstance(v, ast.BinOp) and isinstance(v.op, ast.BitOr) and any(isinstance(o, ast.Name) and o.id == fl for o in (v.left, v.right)))
+                            if not mono:
+                                bad = (fl, x)
+                if bad:
+                    self.violated("I1", MOD, q, "cache-snapshot-restored", bad[1],
+                                  f"the cache snapshot is restored unless `{bad[0]}` is set, and the loop OVERWRITES `{bad[0]}` per item "
+                                  f"(`{norm(bad[1])}`) instead of accumulating it: an item that changed the model followed by one that did not "
+                                  "leaves the stale cache in place",
+                                  witness=f"m.{name}({{changed_item: new, last_item: same_as_before}}); query  -- answers with the old value")
+                else:
+                    self.undecided_ob("I1", MOD, q, "cache-snapshot-restored", n,
+                                      "a cache snapshot taken before the method's writes is restored under a condition; whether the condition "
+                                      "implies that no content changed needs value reasoning the rules do not have")
+        self.analysed["methods_scanned_for_cache_snapshot_restore"] = scanned
+
     def i6(self, m, public) -> None:
         """Every argument of a mutator reaches an effect - a store, a call, an iteration - and is not merely tested.  An argument that is
         only looked at (`if unit is not None:` with the assignment gone) means that part of the requested edit is silently not made."""
@@ -896,6 +973,7 @@ class C03(Check):
             and not any(dotted(d) == "property" for d in m.methods[n].decorator_list)
         ]
         self.analysed["public_mutators"] = public
+        self.i1_restore(m)
         self.i6(m, public)
         self.i6_plural(m)
         self.i3_outputs(m)
@@ -1150,6 +1228,13 @@ class C03(Check):
                     "    del self._variables[name]\n    self._remove_id(name=name)\n", "    self._remove_id(name=name)\n    del self._variables[name]\n",
                     expect="I2|model.py|Model.remove_variable|del:_variables"),
         ]
+        v.append(Variant("snapshot-restored-unconditionally", MOD, f"{CLS}.update_parameters",
+                        "    return self", "    self._cache = self._cache\n    return self",
+                        expect="I1|model.py|Model.update_parameters|cache-snapshot-restored", quick=True))
+        v.append(Variant("snapshot-restored-under-overwritten-flag", MOD, f"{CLS}.update_parameters",
+                         "            self.update_parameter(k, v)\n    return self",
+                         "            self.update_parameter(k, v)\n            changed = k != 'x'\n    if not changed:\n        self._cache = self._cache\n    return self",
+                         expect="I1|model.py|Model.update_parameters|cache-snapshot-restored"))
         return v
 
     def must_stay_silent(self) -> list[Variant]:
